@@ -438,6 +438,14 @@ func init() {
 		for i := 0; i < nrand; i++ {
 			mode := 16 + 16*(i%2)
 			org := c03Origins[(i/2)%len(c03Origins)]
+			if i%8 == 7 {
+				// programs that switch mode between statement groups (statement texts recur in the other mode)
+				pc := genC17Walk(r)
+				pc.Prop = "C03"
+				pc.Cell_ = "rand mode-switching"
+				cases = append(cases, pc)
+				continue
+			}
 			cases = append(cases, c03Random(r, mode, org, true))
 		}
 		rep.Rule = "programs from the clean pool with labels: (a) systematic `ORG o / MOV r,after / K / after: / DW after,first,$ / MOV r,after / MOV r,$ / Jcc after / ...` for seeded statement kinds K of every pool family, both modes, origins {none,0,0x7c00,0xc200}; " +
